@@ -398,9 +398,72 @@ static int op_jfifsave(toks_t *t)
   return 1;
 }
 
+/* hdrw cs units xd yd major minor w h ri l0 l14 (hs vs)*nc : libjpeg API.  The header fields of the compression object, the APP0 / APP14
+ * / SOFn / DRI segments it writes (hex), and the fields jpeg_read_header reports when APP0 / APP14 are saved with the limits l0 / l14
+ * (-1 = not asked for).  Stage 2 (hdrio) hands all of it to the Lean model of the marker writer and reader. */
+typedef struct { char app0[64], app14[64], sof[128], dri[16]; } hdrw_segs;
+static void hdrw_hex(char *dst, size_t cap, const unsigned char *p, size_t n) { size_t i; dst[0] = 0; for (i = 0; i < n && 2 * i + 3 < cap; i++) sprintf(dst + 2 * i, "%02x", p[i]); }
+static void hdrw_cb(int code, const unsigned char *p, size_t len, void *u)
+{
+  hdrw_segs *s = (hdrw_segs *)u; unsigned char tmp[80];
+  if (code == 0xE0 && !s->app0[0]) hdrw_hex(s->app0, sizeof(s->app0), p, len);
+  else if (code == 0xEE && !s->app14[0]) hdrw_hex(s->app14, sizeof(s->app14), p, len);
+  else if (code >= 0xC0 && code <= 0xCF && code != 0xC4 && code != 0xC8 && code != 0xCC && !s->sof[0] && len + 2 < sizeof(tmp)) {
+    tmp[0] = (unsigned char)((len + 2) >> 8); tmp[1] = (unsigned char)((len + 2) & 255); memcpy(tmp + 2, p, len); hdrw_hex(s->sof, sizeof(s->sof), tmp, len + 2);
+  } else if (code == 0xDD && !s->dri[0] && len == 2) { tmp[0] = 0; tmp[1] = 4; memcpy(tmp + 2, p, 2); hdrw_hex(s->dri, sizeof(s->dri), tmp, 4); }
+}
+static int op_hdrw(toks_t *t)
+{
+  int cs = (int)tl(t, 1), units = (int)tl(t, 2), xd = (int)tl(t, 3), yd = (int)tl(t, 4), maj = (int)tl(t, 5), mnr = (int)tl(t, 6), w = (int)tl(t, 7), h = (int)tl(t, 8);
+  int ri = (int)tl(t, 9), l0 = (int)tl(t, 10), l14 = (int)tl(t, 11), nc = cs == 0 ? 1 : (cs == 2 || cs == 3) ? 4 : 3, i, y;
+  struct jpeg_compress_struct c; struct jpeg_decompress_struct d; my_err_t e, e2; unsigned char *out = NULL; unsigned long outsize = 0; JSAMPLE *row; hdrw_segs sg; char line[1200]; int pos = 0;
+  J_COLOR_SPACE jcs = cs == 0 ? JCS_GRAYSCALE : cs == 1 ? JCS_YCbCr : cs == 2 ? JCS_CMYK : cs == 3 ? JCS_YCCK : JCS_RGB;
+  memset(&sg, 0, sizeof(sg));
+  c.err = my_err_init(&e);
+  jpeg_create_compress(&c);
+  if (setjmp(e.jb)) { printf("R err %d\n", e.code); jpeg_destroy_compress(&c); free(out); return 1; }
+  jpeg_mem_dest(&c, &out, &outsize);
+  c.image_width = (JDIMENSION)w; c.image_height = (JDIMENSION)h; c.input_components = nc; c.in_color_space = cs == 0 ? JCS_GRAYSCALE : (cs == 2 || cs == 3) ? JCS_CMYK : JCS_RGB;
+  jpeg_set_defaults(&c);
+  jpeg_set_colorspace(&c, jcs);
+  c.density_unit = (UINT8)units; c.X_density = (UINT16)xd; c.Y_density = (UINT16)yd; c.JFIF_major_version = (UINT8)maj; c.JFIF_minor_version = (UINT8)mnr;
+  c.restart_interval = (unsigned)ri;
+  for (i = 0; i < nc; i++) { c.comp_info[i].h_samp_factor = (int)tl(t, 12 + 2 * i); c.comp_info[i].v_samp_factor = (int)tl(t, 13 + 2 * i); }
+  jpeg_start_compress(&c, TRUE);
+  pos += snprintf(line + pos, sizeof(line) - pos, "W %d %u %u %d", c.data_precision, c.image_height, c.image_width, c.num_components);
+  for (i = 0; i < nc; i++) pos += snprintf(line + pos, sizeof(line) - pos, " %d %d %d %d", c.comp_info[i].component_id, c.comp_info[i].h_samp_factor, c.comp_info[i].v_samp_factor, c.comp_info[i].quant_tbl_no);
+  pos += snprintf(line + pos, sizeof(line) - pos, " J %d %d %d %d %d %d A %d %d RI %u", c.write_JFIF_header, c.JFIF_major_version, c.JFIF_minor_version, c.density_unit, c.X_density, c.Y_density,
+                  c.write_Adobe_marker, jcs == JCS_YCbCr ? 1 : jcs == JCS_YCCK ? 2 : 0, c.restart_interval);
+  row = (JSAMPLE *)malloc((size_t)w * nc + 1);
+  for (y = 0; y < h; y++) { JSAMPROW rp = row; int x; for (x = 0; x < w * nc; x++) row[x] = (JSAMPLE)(x * 9 + y * 31); jpeg_write_scanlines(&c, &rp, 1); }
+  free(row);
+  jpeg_finish_compress(&c);
+  jpeg_destroy_compress(&c);
+  walk_segments(out, outsize, hdrw_cb, &sg);
+  pos += snprintf(line + pos, sizeof(line) - pos, " SEG %s %s %s %s", sg.app0[0] ? sg.app0 : "-", sg.app14[0] ? sg.app14 : "-", sg.sof[0] ? sg.sof : "-", sg.dri[0] ? sg.dri : "-");
+  d.err = my_err_init(&e2);
+  jpeg_create_decompress(&d);
+  if (setjmp(e2.jb)) { printf("R err %d\n", e2.code); printf("O fail hdrw: header of a file written by the library itself refused (error %d)\n", e2.code); jpeg_destroy_decompress(&d); free(out); return 1; }
+  jpeg_mem_src(&d, out, outsize);
+  if (l0 >= 0) jpeg_save_markers(&d, JPEG_APP0, (unsigned int)l0);
+  if (l14 >= 0) jpeg_save_markers(&d, JPEG_APP0 + 14, (unsigned int)l14);
+  jpeg_read_header(&d, TRUE);
+  pos += snprintf(line + pos, sizeof(line) - pos, " D %d %d %d %d %d %d %d %d %d %u %u %d", d.saw_JFIF_marker, d.JFIF_major_version, d.JFIF_minor_version, d.density_unit, d.X_density, d.Y_density,
+                  d.saw_Adobe_marker, d.Adobe_transform, d.data_precision, d.image_height, d.image_width, d.num_components);
+  for (i = 0; i < d.num_components; i++) pos += snprintf(line + pos, sizeof(line) - pos, " %d %d %d %d", d.comp_info[i].component_id, d.comp_info[i].h_samp_factor, d.comp_info[i].v_samp_factor, d.comp_info[i].quant_tbl_no);
+  pos += snprintf(line + pos, sizeof(line) - pos, " %u L %d %d", d.restart_interval, l0, l14);
+  printf("R skip %s\n", line);
+  jpeg_destroy_decompress(&d);
+  free(out);
+  return 1;
+}
+
+
 static int dispatch_c16(toks_t *t)
 {
   const char *op = t->tok[0];
+  if (!strcmp(op, "hdrw") && t->n >= 14) return op_hdrw(t);
+  if (!strcmp(op, "hdrio")) { printf("R ok\n"); return 1; }
   if (!strcmp(op, "jfifsave") && t->n >= 7) return op_jfifsave(t);
   if (!strcmp(op, "iccw")) return op_iccw(t);
   if (!strcmp(op, "iccr")) return op_iccr(t);
